@@ -458,6 +458,11 @@ def _main(check, ctx, args, t0):
         "wall_s": round(wall, 2),
         "violations": len(reported),
     }
+    # simulated time and faults actually fired (not merely configured), by the check's own naming
+    tkeys = getattr(check, "time_keys", {"steps": "scheduler steps (one per instrumented access / pre-emption point)"})
+    ev["coverage"]["simulated_time"] = {k: {"total": measures.get(k, 0), "unit": u} for k, u in tkeys.items()}
+    fkeys = getattr(check, "fault_keys", [])
+    ev["coverage"]["faults_fired"] = {k: measures.get(k, 0) for k in fkeys}
     if hasattr(check, "extra_evidence"):
         ev["coverage"].update(check.extra_evidence(results, ctx))
     if not args.no_evidence:
